@@ -167,7 +167,7 @@ pub(crate) enum ServiceRequest {
     /// Sets up an event stream where the discv5 server will return various events such as
     /// discovered nodes as it traverses the DHT.
     RequestEventStream(oneshot::Sender<mpsc::Receiver<Event>>),
-    /// Verification hook: virtual time for the `std::time` users of the service (query pool, IP votes).
+    /// Verification hook: virtual time for the `std::time` users of the service (query pool, IP votes, pending table slots).
     #[cfg(discv5_verif)]
     VerifAge(std::time::Duration),
 }
@@ -436,6 +436,7 @@ impl Service {
                         #[cfg(discv5_verif)]
                         ServiceRequest::VerifAge(d) => {
                             self.queries.verif_age(d);
+                            self.kbuckets.write().verif_age(d);
                             if let Some(votes) = self.ip_votes.as_mut() {
                                 votes.verif_age(d);
                             }
